@@ -384,7 +384,11 @@ class Synopsis(tuple):
             # elif role is not None and role != synrole.name:
             #     return False  # invalid role in sequence
             elif arg is not None:
-                if variables is not None:
+                if STRING_TYPE in (synrole.value, arg):
+                    # constants are not in the variable hierarchy
+                    if synrole.value != arg:
+                        return False
+                elif variables is not None:
                     if not variables.subsumes(synrole.value, arg):
                         return False
                 elif synrole.value != arg:
